@@ -2,7 +2,7 @@
 PROP = {
     "lean_modules": ["ConduitModel.Props.C03", "ConduitModel.Facts.C03"],
     "jobs": [
-        {"harness": "h_srcack", "comp": "srccrash", "driver": "srcack", "n_quick": 300, "n_thorough": 6000, "timeout": 2400,
+        {"harness": "h_srcack", "comp": "srccrash", "driver": "srcack", "n_quick": 300, "n_thorough": 4000, "timeout": 2400,
          "relevant": lambda case: "fail:" in case["model"] or case["impl"] != "ok",
          "why": "crash points: a trace of the real Source+Persister with crashes/restarts (and a real connector.Service restart on "
                 "EVERY commit snapshot) is not accepted by M3, or the C03 monitor (stored <= handled, delivered <= stored, "
